@@ -21,7 +21,8 @@ CHECKS = {
                 'equality or rejection by exception is required; in addition '
                 'an OS error is injected at every file event of storing a '
                 'file-backed value (rejected with the key unchanged, or '
-                'intact).',
+                'intact); numbers written by incr/decr (64-bit edges, '
+                'int/float mixes) read back exactly as returned.',
                 note='values, lengths and types outside the alphabet are not '
                 'covered; custom Disk subclasses out of scope', ref='§3 C01'),
     'C02': dict(engine='GRID', tech='bounded-exhaustive enumeration of all '
@@ -32,7 +33,8 @@ CHECKS = {
                 'entries coincide iff the documented rule says the keys are '
                 'equal; insertion-order and sorted iteration return the '
                 'stored keys with their types, incl. twin rows at every page '
-                'boundary.',
+                'boundary; keys handed back by reversed() and peekitem '
+                'likewise.',
                 note='NaN and user-defined key classes excluded; JSONDisk '
                 'identity = JSON text', ref='§3 C02'),
     'C03': dict(engine='SEQ', tech='explicit-state BFS of the implementation '
@@ -78,7 +80,9 @@ CHECKS.update({
                 'virtual clock and compared with the reference; expire(), '
                 'cull() and lazily culling writes are checked on every '
                 'population 0..210 of expired items (shared, split and '
-                'distinct expiry times).',
+                'distinct expiry times); 32 (item, operation) cases x 5 '
+                'lock waits during which the clock moves (FAULT): the call '
+                'answers as the reference does when it returns.',
                 note='clock constant inside one call', ref='§3 C04'),
     'C09': dict(engine='SEQ', tech='explicit-state BFS of the implementation '
                 'at its size limit against a relational reference of '
@@ -156,7 +160,8 @@ CHECKS.update({
                 'executed on DjangoCache and LocMemCache for several '
                 'TIMEOUT/KEY_PREFIX/VERSION/SHARDS parameter sets; contract-'
                 'defined return values and the visible state for every key '
-                'and version must agree.',
+                'and version must agree; 20 kinds of value through every '
+                'writer and reader keep value and exact type.',
                 note='return values the contract leaves open (set, clear, '
                 'delete of an expired entry) are not compared', ref='§3 C19'),
     'C20': dict(engine='SCHED', tech='stateless exploration of all '
@@ -243,7 +248,9 @@ CHECKS.update({
                 'interpreter is found; numerically equal keys are compared '
                 'for every shard count 1..16; routing asked of one long-lived '
                 'FanoutCache after it has seen the other keys; size_limit '
-                'division.',
+                'division; JSONDisk-equal keys vs an unsharded JSONDisk '
+                'cache; a setting changed through one handle and reloaded '
+                'through another takes effect in every shard.',
                 note='', ref='§3 C13'),
     'C14': dict(engine='FAULT', tech='exhaustive enumeration of lock-'
                 'contention scenarios per operation against an '
@@ -259,7 +266,11 @@ CHECKS.update({
                 'caches must report through their return value, lock-free '
                 'lookups must keep working; sharded bulk removals are also '
                 'run against a shard that stays busy for > 60 virtual '
-                'seconds.',
+                'seconds, as is every retrying call (it must still wait '
+                'and succeed); SCHED: a write whose busy answer is '
+                'delivered as Timeout while another client (own or shared '
+                'object) runs a block must be explainable as not having '
+                'happened.',
                 note='contender = second SQLite connection in the same '
                 'thread, busy timeout 0', ref='§3 C14'),
     'C16': dict(engine='GRID+SEQ', tech='bounded-exhaustive enumeration of '
@@ -272,7 +283,9 @@ CHECKS.update({
                 'functions in different scopes get different keys; call '
                 'histories through Cache/FanoutCache/Index/DjangoCache.'
                 'memoize and memoize_stampede return what the function '
-                'returns, hit within expiry, store nothing at expiry 0.',
+                'returns, hit within expiry, store nothing at expiry 0; one '
+                'decorator object applied to several functions keeps them '
+                'apart.',
                 note='memoize_stampede recompute thread run inline', ref='§3 C16'),
     'C17': dict(engine='GRID', tech='bounded-exhaustive enumeration of '
                 'damage combinations with a repair-convergence oracle',
@@ -284,7 +297,9 @@ CHECKS.update({
                 'second check() is silent, remaining items are readable and '
                 'undamaged ones untouched; plain check() against a concurrent '
                 'writer (all schedules) may only report in-flight value '
-                'files.',
+                'files; SQLite journal modes other than WAL report nothing '
+                'on an undamaged cache; a damaged shard locked by another '
+                'client is reported or the check fails.',
                 note='', ref='§3 C17'),
     'C18': dict(engine='SEQ+GRID', tech='explicit-state BFS with handle '
                 'events + bounded-exhaustive settings grid + replay of a '
@@ -297,7 +312,8 @@ CHECKS.update({
                 'unpickling (Cache, FanoutCache, JSONDisk); every item of the '
                 'golden v5.6.3 directories (Cache, queue, FanoutCache with '
                 'recorded shards, Deque, Index, JSONDisk) is read through '
-                'every accessor.',
+                'every accessor; two handles resetting one setting in '
+                'turn agree on the last value.',
                 note='Disk class is an argument, not a stored setting',
                 ref='§3 C18'),
 })
